@@ -15,9 +15,12 @@ def stepLine (d : DS) (args : List String) : DS × String :=
       let o : Option (Option RO) :=
         if ro = "none" then some none else
         match ro.splitOn ":" with
-        | [v, alg, cid] =>
+        | [v, alg, cid, iss] =>
           let c : Option (Option Str) := if cid = "-" then some none else (decStr cid).map some
-          c.map fun c' => some { verifies := v = "1", alg := alg, clientId := c', params := [([105], [110])] }
+          let i : Option (Option Str) := if iss = "-" then some none else (decStr iss).map some
+          match c, i with
+          | some c', some i' => some (some { verifies := v = "1", alg := alg, clientId := c', iss := i', params := [([105], [110])] })
+          | _, _ => none
         | _ => none
       match o with
       | none => (d, "bad-op")
